@@ -345,6 +345,7 @@ METHODS = {
     ("Str", "rfind"): Fn("Pre.rfind", [STR, STR], INT),
     ("Bytes", "find"): Fn("Pre.find", [BYTES, BYTES], INT),
     ("Bytes", "rfind"): Fn("Pre.rfind", [BYTES, BYTES], INT),
+    ("Bytes", "rfind/2"): Fn("Pre.rfindFrom", [BYTES, BYTES, INT], INT),
     ("Bytes", "startswith"): Fn("Pre.startswith", [BYTES, BYTES], BOOL),
     ("Bytes", "endswith"): Fn("Pre.endswith", [BYTES, BYTES], BOOL),
     ("Str", "partition"): Fn("Pre.partition", [STR, STR], Tup(STR, STR, STR), nonempty_lit=(1,)),
@@ -501,6 +502,18 @@ class Spec:
     #: it -, python expression text): when control reaches that statement the translated function
     #: returns the value of the expression instead of going on
     stop_at: tuple | None = None
+    #: keys of dict displays whose entries are left out of the translation (values outside the subset)
+    dict_skip_keys: tuple = ()
+    #: `x == ""` / `x == b""` / `x == []` are spelled `x.isEmpty`, the way `not x` is (so the two Python
+    #: spellings give the same Lean text); off for the translations that predate the option
+    canon_empty: bool = True
+    #: `if not c: A else: B` (a plain `else`, not `elif`) is translated as `if c: B else: A`
+    canon_not_if: bool = True
+    #: parameters of shared continuations (`k1_ …`) in a canonical order (see stmt_if_joined)
+    canon_join_order: bool = True
+    #: model-only locals with their initial value {name: (Lean term, type text)}: flags written by
+    #: declared effects (e.g. "the environ entry wsgi.input_terminated was set")
+    init_locals: dict = field(default_factory=dict)
     #: {local name: type text}: variables that some path reaches without having assigned them (e.g.
     #: assigned only inside a loop body and read after the loop): they start unbound; reading one
     #: that is still unbound is the error "UnboundLocalError", as in Python
@@ -711,13 +724,25 @@ class Translator:
     def translate(self) -> str:
         fn, is_method = self.find_def()
         spec = self.spec
+
+        class _Casts(ast.NodeTransformer):
+            """`typing.cast(T, x)` is `x` at run time (unless a pattern of the spec maps the call)"""
+
+            def visit_Call(self_, node):
+                self_.generic_visit(node)
+                if dotted(node.func) in ("t.cast", "typing.cast", "cast") and len(node.args) == 2 and not node.keywords:
+                    if not any(m_(node) is not None for m_, _ in spec.patterns):
+                        return node.args[1]
+                return node
+
+        fn = _Casts().visit(fn)
         if fn.decorator_list and not all(isinstance(d, ast.Name) and d.id in ("staticmethod", *spec.decorators) for d in fn.decorator_list):
             self.bad(fn, "decorated function")
         a = fn.args
         if a.vararg is not None and not any(p == "*" + a.vararg.arg for p, _ in spec.params):
             self.bad(fn, "*args not covered by the signature spec")
-        if a.kwonlyargs:
-            self.bad(fn, "keyword-only parameters")
+        if a.kwonlyargs and any(d is not None for d in a.kw_defaults):
+            self.bad(fn, "keyword-only parameters with defaults")
         if a.kwarg is not None and spec.static.get(a.kwarg.arg) is not False:
             # `**kwargs` is only accepted when the spec restricts the function to calls without
             # keyword arguments (static = {"kwargs": False}: `if kwargs:` is then decided)
@@ -729,6 +754,8 @@ class Translator:
             pynames = pynames[1:]
         if a.vararg is not None:
             pynames.append("*" + a.vararg.arg)
+        # keyword-only parameters (without defaults) are ordinary parameters of the translation
+        pynames += [x.arg for x in a.kwonlyargs]
         # ("self", ty): the object itself is a value (e.g. a list subclass iterated with `for x in self`)
         declared = [p for p, _ in spec.params if not p.startswith("self.") and p != "self"]
         if declared != pynames:
@@ -771,6 +798,11 @@ class Translator:
             t_ = Ty("Unb", (parse_ty(ty_),))
             env[nm_] = Var(lean_name(nm_), t_)
             unb_lines += [f"-- ({nm_}: not bound yet)", f"let {lean_name(nm_)} : {lean_ty(t_)} := none"]
+        for nm_, (term_, ty_) in spec.init_locals.items():
+            # a model-only local (written by declared effects), with its initial value
+            t_ = parse_ty(ty_)
+            env[nm_] = Var(lean_name(nm_), t_)
+            unb_lines += [f"-- ({nm_}: a local of the model, written by the declared effects)", f"let {lean_name(nm_)} : {lean_ty(t_)} := {term_}"]
         body = unb_lines + self.block(fn.body, env, None, self.fall_off_end(fn))
         doc = spec.doc or f"`{spec.qualname}` of src/werkzeug/{spec.module}, translated by tools/py2lean.py"
         out = []
@@ -911,6 +943,8 @@ class Translator:
 
     def coerce(self, e: E, ty: Ty, node) -> E:
         if e.ty == ty:
+            if ty == NONE and e.lean == "none":
+                return E("()", NONE, None, True)  # a literal None where the Lean side takes a Unit
             return e
         if ty.kind == "Rec" and e.ty.kind == "Tup" and [t for _, t in RECORDS[ty.args[0]]] == list(e.ty.args):
             return E(e.lean, ty, None, e.atomic)  # the tuple of the attributes is the object
@@ -952,6 +986,15 @@ class Translator:
         if ty.kind in ("Dict", "List", "Set") and e.ty.kind == "Tup0":
             return E("[]", ty, None, True)  # `cls(())`-style empty initialiser
         self.bad(node, f"type mismatch: {e.ty} where {ty} is expected")
+
+    def plain_recv(self, e: E, node) -> E:
+        """the receiver of an attribute access / method call must be plain: on None Python raises
+        AttributeError (not TypeError)"""
+        try:
+            return self.plain(e, node)
+        except (NeedUnwrap, NoneUsed) as u:
+            u.cls = "AttributeError"
+            raise
 
     def plain(self, e: E, node) -> E:
         """e must be a plain (non-Option, non-None) value"""
@@ -1069,7 +1112,7 @@ class Translator:
             if d is not None and d in self.spec.consts:
                 term, ty = self.spec.consts[d]
                 return E(term, parse_ty(ty), None, _is_atomic_text(term))
-            base = self.plain(self.expr(n.value, env), n.value)
+            base = self.plain_recv(self.expr(n.value, env), n.value)
             if base.ty.kind == "Rec":
                 pr = rec_proj(P(base), base.ty.args[0], n.attr)
                 if pr is None:
@@ -1163,7 +1206,30 @@ class Translator:
             return self.listcomp(lc, env)
         if isinstance(n, ast.Dict):
             if n.keys:
-                self.bad(n, "non-empty dict literal")
+                # a dict display with distinct constant keys; the entries whose key the spec lists in
+                # `dict_skip_keys` (values outside the subset: objects, tuples, ...) are left out - the
+                # translated dict is the rest, in display order
+                if any(k_ is None for k_ in n.keys):
+                    self.bad(n, "dict display with ** unpacking")
+                if not all(isinstance(k_, ast.Constant) and isinstance(k_.value, str) for k_ in n.keys):
+                    self.bad(n, "dict display with keys that are not text literals")
+                ks = [k_.value for k_ in n.keys]
+                if len(set(ks)) != len(ks):
+                    self.bad(n, "dict display with a repeated key")
+                items, vty = [], None
+                for k_, v_ in zip(n.keys, n.values):
+                    if k_.value in self.spec.dict_skip_keys:
+                        continue
+                    ke = self.expr(k_, env)
+                    ve = self.plain(self.expr(v_, env), v_)
+                    if vty is None:
+                        vty = ve.ty
+                    elif ve.ty != vty:
+                        self.bad(v_, f"dict display with values of different types ({vty}, {ve.ty}): list the key in dict_skip_keys")
+                    items.append(f"({ke.lean}, {ve.lean})")
+                if vty is None:
+                    return E("[]", Ty("Dict", (NONE, NONE)), None, True)
+                return E("[" + ", ".join(items) + "]", Dct(STR, vty), None, True)
             return E("[]", Ty("Dict", (NONE, NONE)), None, True)
         self.bad(n, "unsupported expression")
 
@@ -1463,6 +1529,10 @@ class Translator:
             if a.ty.kind in ("Int", "Bool", "Str", "Bytes", "Opt", "List", "Tup"):
                 if a.ty == BOOL and a.const is not None and b.const is not None:
                     return bconst(a.const == b.const)
+                if self.spec.canon_empty and a.ty.kind in ("Str", "Bytes", "List") and "[]" in (a.lean, b.lean) and a.lean != b.lean:
+                    # `x == ""` is the same test as `not x` for a text / bytes / list: one spelling
+                    o = b if a.lean == "[]" else a
+                    return E(f"{P(o)}.isEmpty", BOOL)
                 return E(f"{P(a)} == {P(b)}", BOOL)
         if a.ty.kind == "Opt" and a.ty.args[0] == b.ty:
             return E(f"{P(a)} == some {P(b)}", BOOL)
@@ -1603,7 +1673,7 @@ class Translator:
             dty = env[key_].ty
             return Fn("Pre.dictPop", [dty.args[0]], dty.args[1], raises=("KeyError",), effect_key=key_), list(n.args)
         if isinstance(f, ast.Attribute):
-            recv = self.plain(self.expr(f.value, env), f.value)
+            recv = self.plain_recv(self.expr(f.value, env), f.value)
             if recv.ty.kind == "Rec":
                 fn = self.spec.methods.get(("Rec:" + recv.ty.args[0], f.attr))
                 if fn is None:
@@ -1615,7 +1685,7 @@ class Translator:
                     proj.append(a_)
                 return fn, proj + list(n.args)
             key = (recv.ty.kind, f.attr)
-            if key not in METHODS:
+            if key not in METHODS or (recv.ty.kind, f"{f.attr}/{len(n.args)}") in METHODS:
                 key = (recv.ty.kind, f"{f.attr}/{len(n.args)}")  # arity-dependent methods
             if (recv.ty.kind, f.attr) in self.spec.methods:
                 return self.spec.methods[(recv.ty.kind, f.attr)], [f.value] + list(n.args)
@@ -1848,6 +1918,15 @@ class Translator:
                     if isinstance(sub, ast.Call) and sub is not x:
                         pass
                 return
+            if isinstance(x, ast.Dict) and self.spec.dict_skip_keys:
+                # the entries the spec leaves out of a dict display are not looked at
+                for k_, v_ in zip(x.keys, x.values):
+                    if isinstance(k_, ast.Constant) and k_.value in self.spec.dict_skip_keys:
+                        continue
+                    if k_ is not None:
+                        walk(k_, lazy)
+                    walk(v_, lazy)
+                return
             for c in ast.iter_child_nodes(x):
                 walk(c, lazy)
 
@@ -1857,7 +1936,7 @@ class Translator:
     # ---- statements -----------------------------------------------------
 
     def comment(self, node, text=None):
-        t = text if text is not None else getattr(node, "_py2lean_comment", None) or self.srcline(node)
+        t = text if text is not None else getattr(node, "_py2lean_comment", None) or getattr(node, "_py2lean_swapped", None) or self.srcline(node)
         return [f"-- {t}"] if t else []
 
     def block(self, stmts, env, loop, k):
@@ -1945,12 +2024,12 @@ class Translator:
             env2 = dict(env)
             env2[u.name] = Var(v.lean, v.ty.args[0])
             inner = self.guarded(node, env2, loop, fn)
-            err_cls = '"UnboundLocalError"' if v.ty.kind == "Unb" else '"TypeError"'
+            err_cls = '"UnboundLocalError"' if v.ty.kind == "Unb" else f'"{getattr(u, "cls", "TypeError")}"'
             return [f"match {v.lean} with", "| none =>"] + ind(self.wrap_error(err_cls, node, loop, env)) + [f"| some {v.lean} =>"] + ind(inner)
         except NoneUsed as u:
             if not self.raises:
                 self.bad(u.node, f"{u.name!r} is None here (TypeError) and the function is declared pure")
-            return self.wrap_error('"TypeError"', node, loop, env)
+            return self.wrap_error(f'"{getattr(u, "cls", "TypeError")}"', node, loop, env)
 
     def stmt(self, s, env, loop, k):
         if isinstance(s, ast.Expr) and isinstance(s.value, ast.Constant) and isinstance(s.value.value, str):
@@ -1980,7 +2059,8 @@ class Translator:
                 if isinstance(s, ast.Return):
                     return self.comment(s) + self.stateful_call(s, s.value, res0, env, loop, None, lambda e, env2: self.emit_return(e, s, env2, loop))
                 if len(s.targets) == 1:
-                    tgt_ = s.targets[0] if isinstance(s.targets[0], ast.Name) else self.target_key(s.targets[0], env)
+                    tup_ = isinstance(s.targets[0], ast.Tuple) and all(isinstance(x, ast.Name) for x in s.targets[0].elts)
+                    tgt_ = s.targets[0] if isinstance(s.targets[0], ast.Name) or tup_ else self.target_key(s.targets[0], env)
                     if tgt_ is None:
                         self.bad(s, "assignment target that is not a local name / state attribute")
                     return self.comment(s) + self.stateful_call(s, s.value, res0, env, loop, None, lambda e, env2: self.bind(tgt_, e, s, env2, loop, k))
@@ -2036,6 +2116,47 @@ class Translator:
             return self.comment(s) + self.stmt_value(s, s.value, env, loop, use_field, handlers=None)
         if isinstance(s, ast.Assign) and len(s.targets) == 1 and isinstance(s.value, ast.ListComp) and any(isinstance(x, ast.NamedExpr) for x in ast.walk(s.value)):
             return self.comment(s) + self.stmt_filter_walrus(s, env, loop, k)
+        if isinstance(s, ast.Assign) and len(s.targets) > 1 and isinstance(s.value, (ast.Name, ast.Constant)) and not all(isinstance(t_, ast.Name) for t_ in s.targets):
+            # `a[i] = b[j] = v` with `v` a variable / constant: the targets are assigned left to right
+            stmts = []
+            for t_ in s.targets:
+                nx = ast.Assign(targets=[t_], value=s.value)
+                ast.copy_location(nx, s)
+                ast.fix_missing_locations(nx)
+                nx._py2lean_comment = f"{self.srcline(s)}   [chained assignment: {ast.unparse(t_)} = {ast.unparse(s.value)}]"
+                stmts.append(nx)
+            return self.block(stmts, env, loop, k)
+        if (
+            isinstance(s, ast.Assign) and len(s.targets) == 1 and isinstance(s.targets[0], ast.Tuple)
+            and any(not isinstance(x, ast.Name) for x in s.targets[0].elts)
+            and all(isinstance(x, (ast.Name, ast.Subscript, ast.Attribute)) for x in s.targets[0].elts)
+        ):
+            # `a[i], b[j] = e`: `e` is unpacked into temporaries, then the targets are assigned left to right
+            self.tmp += 1
+            names = [f"u{self.tmp}_{i}_" for i in range(len(s.targets[0].elts))]
+            first = ast.Assign(targets=[ast.Tuple(elts=[ast.Name(id=nm, ctx=ast.Store()) for nm in names], ctx=ast.Store())], value=s.value)
+            ast.copy_location(first, s)
+            ast.fix_missing_locations(first)
+            stmts = [first]
+            for nm, t_ in zip(names, s.targets[0].elts):
+                nx = ast.Assign(targets=[t_], value=ast.Name(id=nm, ctx=ast.Load()))
+                ast.copy_location(nx, s)
+                ast.fix_missing_locations(nx)
+                nx._py2lean_comment = f"  (unpacked: {ast.unparse(t_)} = {nm})"
+                stmts.append(nx)
+            return self.block(stmts, env, loop, k)
+        if isinstance(s, ast.Assign) and len(s.targets) > 1 and all(isinstance(t_, ast.Name) for t_ in s.targets):
+            # `a = b = e`: `e` is evaluated once and assigned to `a`, then to `b`
+            first = ast.Assign(targets=[s.targets[0]], value=s.value)
+            ast.copy_location(first, s)
+            stmts = [first]
+            for t_ in s.targets[1:]:
+                nx = ast.Assign(targets=[t_], value=ast.Name(id=s.targets[0].id, ctx=ast.Load()))
+                ast.copy_location(nx, s)
+                ast.fix_missing_locations(nx)
+                nx._py2lean_comment = f"  (chained assignment: {t_.id} = {s.targets[0].id})"
+                stmts.append(nx)
+            return self.block(stmts, env, loop, k)
         if isinstance(s, ast.Assign):
             if len(s.targets) != 1:
                 self.bad(s, "chained assignment")
@@ -2063,6 +2184,9 @@ class Translator:
                 ast.fix_missing_locations(call)
                 return self.comment(s) + self.stmt_value(s, call, env, loop, lambda e, env2: self.bind(s.targets[0], e, s, env2, loop, k), handlers=None)
             return self.comment(s) + self.stmt_value(s, s.value, env, loop, lambda e, env2: self.bind(s.targets[0], e, s, env2, loop, k), handlers=None)
+        if isinstance(s, ast.AnnAssign) and s.value is None and isinstance(s.target, ast.Name):
+            # a bare annotation `x: T` binds nothing (the annotation of a local is never evaluated)
+            return self.comment(s) + k(env, loop)
         if isinstance(s, ast.AnnAssign):
             if s.value is None or not isinstance(s.target, ast.Name):
                 self.bad(s, "annotation without value")
@@ -2120,6 +2244,18 @@ class Translator:
             assign._py2lean_comment = f"{self.srcline(s)}   [the assignment expression first: {w.target.id} = {ast.unparse(w.value)}]"
             if2._py2lean_comment = f"  … if {ast.unparse(test2)}:"
             return self.block([assign, if2], env, loop, k)
+        if (
+            isinstance(s, ast.If) and self.spec.canon_not_if and isinstance(s.test, ast.UnaryOp) and isinstance(s.test.op, ast.Not)
+            and s.orelse and not (len(s.orelse) == 1 and isinstance(s.orelse[0], ast.If) and s.orelse[0].col_offset == s.col_offset)
+            and not getattr(s, "_py2lean_canon", False)
+        ):
+            # `if not c: A else: B` is `if c: B else: A`: one spelling (the positive test first)
+            s2 = ast.If(test=s.test.operand, body=s.orelse, orelse=s.body)
+            ast.copy_location(s2, s)
+            s2._py2lean_canon = True
+            s2._py2lean_rest = getattr(s, "_py2lean_rest", None)
+            s2._py2lean_swapped = f"{self.srcline(s)}   [branches exchanged: the test without `not` first]"
+            return self.stmt(s2, env, loop, k)
         if isinstance(s, ast.If):
             if (loop is None or getattr(loop, "join_ty", None)) and not getattr(s, "_py2lean_comment", None):
                 return self.stmt_if_joined(s, env, loop, k)
@@ -2308,6 +2444,11 @@ class Translator:
         if all(c in caught_by for c in raises) and len(set(caught_by.values())) == 1:
             i = next(iter(caught_by.values()))
             return ["| .error _ =>"] + ind(handlers[i][1](env))
+        if not caught_by:
+            # none of the declared classes is caught by these clauses: the exception leaves the `try`
+            if not self.raises:
+                self.bad(s, f"a call that can raise {raises} (not caught by the except clauses) in a function declared pure")
+            return ["| .error e_ =>"] + ind(self.wrap_error("e_", s, loop, env))
         self.bad(s, f"the except clauses do not uniformly cover the declared exception classes {raises} of the call (partial handling is outside the subset)")
 
     def bind(self, target, e: E, s, env, loop, k):
@@ -2419,6 +2560,16 @@ class Translator:
                     none = ast.Constant(value=None)
                     return ("setslice", key, [t.slice.lower or none, t.slice.upper or none, s.value])
                 return ("setitem", key, [t.slice, s.value])
+        if isinstance(s, ast.Delete) and len(s.targets) == 1 and isinstance(s.targets[0], ast.Subscript) and isinstance(s.targets[0].slice, ast.Slice) and s.targets[0].slice.step is None:
+            # `del xs[lo:hi]` is `xs[lo:hi] = <empty>` (a list, or a bytearray)
+            t = s.targets[0]
+            key = self.target_key(t.value, env)
+            if key is not None and env[key].ty.kind in ("Bytes", "List"):
+                none = ast.Constant(value=None)
+                empty = ast.Constant(value=b"") if env[key].ty.kind == "Bytes" else ast.List(elts=[], ctx=ast.Load())
+                ast.copy_location(empty, s)
+                ast.copy_location(none, s)
+                return ("setslice", key, [t.slice.lower or none, t.slice.upper or none, empty])
         if isinstance(s, ast.Delete) and len(s.targets) == 1 and isinstance(s.targets[0], ast.Subscript) and not isinstance(s.targets[0].slice, ast.Slice):
             t = s.targets[0]
             key = self.target_key(t.value, env)
@@ -2641,6 +2792,11 @@ class Translator:
                     for key_, _ in self.spec.effects.get(ast.unparse(x.value), []):
                         if key_ not in assigned:
                             assigned.append(key_)
+                if isinstance(x, ast.Assign) and self.spec.effects:
+                    # an assignment statement declared an effect (`self.headers["X"] = v`, `self.status_code = n`)
+                    for key_, _ in self.spec.effects.get(ast.unparse(x), []):
+                        if key_ not in assigned:
+                            assigned.append(key_)
         return assigned
 
     def stmt_if_joined(self, s, env, loop, k):
@@ -2680,6 +2836,12 @@ class Translator:
         self.njoin += 1
         jname = f"k{self.njoin}_"
         names = self.modified_names([s], env)
+        if self.spec.canon_join_order:
+            # a canonical order of the parameters of the shared continuation: the attributes of the
+            # object in the order the spec lists them, then the locals by name (so that exchanging
+            # branches / reordering independent statements does not permute them)
+            order_ = {key_: i for i, key_ in enumerate(self.state_keys())}
+            names = sorted([nm for nm in names if nm in order_], key=lambda nm: order_[nm]) + sorted(nm for nm in names if nm not in order_)
         jp = {"sig": None}
         joined = None
         arrivals = []
@@ -2941,6 +3103,11 @@ class Translator:
                         for c_ in ast.walk(ast.Module(body=h.body, type_ignores=[])):
                             if isinstance(c_, ast.Call) and any(x is y for y in ast.walk(c_)) and any(m_(c_) is not None for m_, _ in self.spec.patterns):
                                 parent_ok = True
+                        # ... or inside the arguments of the exception a `raise` constructs (only the class
+                        # of a raised exception is modelled, its arguments are never evaluated)
+                        for r_ in ast.walk(ast.Module(body=h.body, type_ignores=[])):
+                            if isinstance(r_, ast.Raise) and isinstance(r_.exc, ast.Call) and any(x is y for a_ in r_.exc.args for y in ast.walk(a_)):
+                                parent_ok = True
                         if not parent_ok:
                             self.bad(h, "the bound exception is used other than as the cause of `raise ... from`")
             if isinstance(h.type, ast.Name):
@@ -3173,6 +3340,13 @@ class Translator:
         if isinstance(s.iter, (ast.Tuple, ast.List)):
             return self.stmt_for_unrolled(s, env, loop, k)
         if loop is not None:
+            # a `for` loop directly inside the body of another `for` loop (no `break` of its own, not
+            # under a `while`): its auxiliary definition answers `.ret x` with `x` a result of the
+            # enclosing loop's body (so a `return` inside is `.ret (.ret r)`), like a nested `while`
+            if getattr(loop, "iter_arg", None) == "fuel_" or any(isinstance(x, ast.Break) for st_ in s.body for x in ast.walk(st_)) or loop.has_break:
+                self.bad(s, "nested loops")
+        outer_ty = loop.result_ty if loop is not None and loop.result_ty is not None else self.ret_lean_ty
+        if loop is not None and loop.result_ty is None:
             self.bad(s, "nested loops")
         if not getattr(s, "_py2lean_iter_bound", False):
             # raising calls in the iterable are evaluated once, before the loop
@@ -3223,6 +3397,10 @@ class Translator:
                         for key_, _ in self.spec.effects.get(src_, []):
                             if key_ not in assigned:
                                 assigned.append(key_)
+                    if isinstance(x, ast.Assign) and self.spec.effects:
+                        for key_, _ in self.spec.effects.get(ast.unparse(x), []):
+                            if key_ not in assigned:
+                                assigned.append(key_)
                     if isinstance(x, ast.Call):
                         try:
                             r_ = self.resolve_call(x, env1)
@@ -3248,14 +3426,19 @@ class Translator:
                 used = used | set(self.state_keys())
             captured = [nm for nm in env1 if not nm.startswith("<") and nm in used and nm not in state and nm not in targets and env1[nm].ty != NONE and nm != iter_var]
             fname = f"{self.spec.name}.loop{self.nloops + 1}"
+            self.nloops += 1  # (reserved now: a loop nested in the body takes the next number; released when this loop turns out to be a duplicate)
+            reserved = self.nloops
             fuel_head = " fuel" if self.spec.needs_fuel else ""  # callees inside the body take the function's fuel
             head = fuel_head + self.opaque_args + "".join(" " + env1[nm].lean for nm in captured)
             lc = LoopCtx(fname, head, state, state_tys)
             lc.has_break = has_break
+            lc.parent = loop
+            st_ty0 = "Unit" if not state else " × ".join(lean_ty(t, False) for t in state_tys)
+            if not has_break:
+                lc.result_ty = f"Pre.Loop {_par(outer_ty)} {_par(st_ty0)}"
             if not has_break and self.spec.join_in_loops:
                 # the statements after an `if` inside the body may be shared by a local function
-                st_ty0 = "Unit" if not state else " × ".join(lean_ty(t, False) for t in state_tys)
-                lc.join_ty = f"Pre.Loop {_par(self.ret_lean_ty)} {_par(st_ty0)}"
+                lc.join_ty = f"Pre.Loop {_par(outer_ty)} {_par(st_ty0)}"
             it_src = s.iter.args[0] if isinstance(s.iter, ast.Call) and isinstance(s.iter.func, ast.Name) and s.iter.func.id == "enumerate" and len(s.iter.args) == 1 else s.iter
             lc.iter_key = self.target_key(it_src, env1)
             if has_break:
@@ -3304,7 +3487,7 @@ class Translator:
                 brk_ty = "Unit" if not brk_items else " × ".join(brk_items)
                 res_ty = f"Pre.LoopB {_par(self.ret_lean_ty)} {_par(st_ty)} {_par(brk_ty)}"
             else:
-                res_ty = f"Pre.Loop {_par(self.ret_lean_ty)} {_par(st_ty)}"
+                res_ty = f"Pre.Loop {_par(outer_ty)} {_par(st_ty)}"
             sig = " → ".join([f"List {lean_ty(elt, False)}"] + [lean_ty(t, True) for t in state_tys] + [res_ty])
             st_pats = "".join(", " + env1[nm].lean for nm in state)
             what = "`.ret r` = the function returned `r` inside the loop, `.fall st` = the loop ran to its end with loop state `st`"
@@ -3325,8 +3508,9 @@ class Translator:
                 old = self.loop_memo[key]
                 lc.fname = old
                 fname = old
+                if self.nloops == reserved:
+                    self.nloops -= 1
             else:
-                self.nloops += 1
                 self.loop_memo[key] = fname
                 self.aux.append(text)
             # --- use
@@ -3352,7 +3536,7 @@ class Translator:
                 v_ = env1[iter_var]
                 env_fall[iter_var] = Var("([] : " + lean_ty(v_.ty) + ")", v_.ty, iter_of=v_.iter_of, exhausted=True)
             if not has_break:
-                after = k(env_fall, None)
+                after = k(env_fall, loop)
                 return [f"match {call} with", "| .ret r_ => r_", f"| .fall {fall_pat} =>"] + ind(after)
             # the else clause runs only when the loop was not left by `break`
             after_fall = self.comment(s, "else:  (of the for loop)") + self.block(s.orelse, env_fall, None, k) if s.orelse else k(env_fall, None)
